@@ -2,6 +2,7 @@ package props
 
 import (
 	"fmt"
+	"strings"
 
 	"golang.org/x/tools/go/ssa"
 
@@ -92,21 +93,36 @@ func ruleRandomSource(e *Env) {
 func ruleRandomBits(e *Env) {
 	const rule = "C19.bits"
 	fn := e.Fn(rule, "uu", "RandomID")
-	two := e.Fn(rule, "uu", "twoRandomUint63")
 	ver := e.Method(rule, "uu", "ID", "Version")
 	vari := e.Method(rule, "uu", "ID", "Variant")
-	if fn == nil || two == nil || ver == nil || vari == nil {
+	if fn == nil || ver == nil || vari == nil {
 		return
 	}
 	site := flow.FnName(fn)
-	// "every generated ID": the draws are turned into IDs by RandomID only — no second function of the module calls
-	// the drawing function (its version/variant bits would be unchecked)
-	for _, caller := range flow.SortedFuncs(e.C.AllRepoFuncs()) {
-		if flow.Origin(caller) == fn || flow.Origin(caller) == two {
+	// "every generated ID": the draws are turned into IDs by RandomID only — no other exported function or method of
+	// the package reaches a function that draws from a *rand.Rand (its version/variant bits would be unchecked);
+	// whether the drawing is a helper of its own or written out in RandomID does not matter
+	draws0 := func(f *ssa.Function) bool {
+		for _, b := range f.Blocks {
+			for _, in := range b.Instrs {
+				if call, ok := in.(*ssa.Call); ok {
+					if g := call.Call.StaticCallee(); g != nil && strings.HasPrefix(g.String(), "(*math/rand.Rand).") && g.Name() != "Seed" {
+						return true
+					}
+				}
+			}
+		}
+		return false
+	}
+	for _, f := range e.PkgFuncs("uu") {
+		if flow.Origin(f) == fn || f.Object() == nil || !f.Object().Exported() || f.Name() == "init" {
 			continue
 		}
-		for _, call := range e.C.Calls(caller, func(f *ssa.Function) bool { return flow.Origin(f) == two }) {
-			e.S.Bad(rule, flow.FnName(caller), "second generator", "draws from the shared generator outside RandomID: the IDs built here are not covered by the version/variant evaluation", e.posOf(call), "")
+		for g := range e.C.Reachable(f) {
+			if draws0(g) {
+				e.S.Bad(rule, flow.FnName(f), "second generator", "draws from a random generator outside RandomID (through "+flow.FnName(g)+"): the IDs built here are not covered by the version/variant evaluation", e.Pos(f), "")
+				break
+			}
 		}
 	}
 	// every (*rand.Rand).Int63() call yields a fresh 63-bit symbol (bit 63 clear, documented by math/rand)
@@ -121,7 +137,6 @@ func ruleRandomBits(e *Env) {
 		"(*sync.Mutex).Lock":   func(ev *pred.Evaluator, args []pred.Val) (pred.Val, error) { return pred.Tuple{}, nil },
 		"(*sync.Mutex).Unlock": func(ev *pred.Evaluator, args []pred.Val) (pred.Val, error) { return pred.Tuple{}, nil },
 	}}
-	_ = two
 	out, err := ev.Eval(fn, nil)
 	if err != nil {
 		e.S.Unk(rule, site, "bits", "bit-provenance evaluation stopped: "+err.Error(), e.Pos(fn))
